@@ -114,16 +114,25 @@ Theorem c04_zrank_spec :
 Proof. exact eng_zrank_spec. Qed.
 
 (** ZRANGE / ZREVRANGE: the code's index arithmetic is Redis' rule on the order /
-    the reversed order, for all (unbounded) start and stop outside the recorded classes *)
+    the reversed order, for all (unbounded) start and stop outside the recorded classes
+    (and with no exception for the repaired translation, [zrange_fixed = true]) *)
 Theorem c04_zrange_redis :
-  forall d key z start stop, zget d key = Some z -> kf_zrange_fwd (len z) start stop = false ->
+  forall d key z start stop, zget d key = Some z ->
+  (zrange_fixed = false -> kf_zrange_fwd (len z) start stop = false) ->
   eng_zrange d key start stop false = Some (redis_slice z start stop).
 Proof. exact eng_zrange_spec. Qed.
 
 Theorem c04_zrevrange_redis :
-  forall d key z start stop, zget d key = Some z -> kf_zrange_rev (len z) start stop = false ->
+  forall d key z start stop, zget d key = Some z ->
+  (zrange_fixed = false -> kf_zrange_rev (len z) start stop = false) ->
   eng_zrange d key start stop true = Some (redis_slice (rev z) start stop).
 Proof. exact eng_zrevrange_spec. Qed.
+
+Theorem c04_zrange_repaired_redis :
+  forall s start stop, sl_length s = len (sl_nodes s) ->
+  zrange_of_v2 s start stop false = redis_slice (sl_items s) start stop /\
+  zrange_of_v2 s start stop true = redis_slice (rev (sl_items s)) start stop.
+Proof. intros. split; [apply zrange_fwd_redis_v2|apply zrange_rev_redis_v2]; assumption. Qed.
 
 (** ZRANGEBYSCORE / ZREVRANGEBYSCORE / ZCOUNT: exactly the members with min <= score <= max *)
 Theorem c04_rangebyscore_spec :
@@ -228,11 +237,11 @@ Proof. exact zrem_nan_keeps_key. Qed.
 (** ZRANGE z 0 -100 / ZREVRANGE z 5 10 on three members return one member *)
 Theorem c04_zrange_neg_stop_refuted :
   kf_zrange_fwd 3 0 (-100) = true /\
-  zrange_of (z2sl z3) 0 (-100) false = [(bs "a", one_bits)] /\ redis_slice z3 0 (-100) = [].
+  zrange_of_v1 (z2sl z3) 0 (-100) false = [(bs "a", one_bits)] /\ redis_slice z3 0 (-100) = [].
 Proof. exact zrange_neg_stop_witness. Qed.
 Theorem c04_zrevrange_beyond_refuted :
   kf_zrange_rev 3 5 10 = true /\
-  zrange_of (z2sl z3) 5 10 true = [(bs "a", one_bits)] /\ redis_slice (rev z3) 5 10 = [].
+  zrange_of_v1 (z2sl z3) 5 10 true = [(bs "a", one_bits)] /\ redis_slice (rev z3) 5 10 = [].
 Proof. exact zrevrange_beyond_witness. Qed.
 
 (** "a refused multi-member ZADD adds nothing": ZADD z 1 a x b answers an error and has added a *)
